@@ -76,6 +76,7 @@ func (s *V1Session) DecodeFromBytes(data []byte, df gopacket.DecodeFeedback) err
 		// not expecting an auth code
 		s.BaseLayer.Contents = data[:10]
 		s.BaseLayer.Payload = data[10:]
+		s.AuthCode = [16]byte{}
 		s.Length = uint8(data[9])
 	} else {
 		// there should be an auth code
